@@ -45,6 +45,10 @@ def gen(ctx):
         withs = [ast.unparse(x.items[0].context_expr) for x in ast.walk(f) if isinstance(x, ast.With)]
         if withs != ["_mutex"]:
             raise T.Untranslatable(f"UNTRANSLATABLE: {fn} no longer runs under the module mutex: {withs}")
+    # re-creating the node's I/O object must keep the running total of the transfers in flight
+    init = ast.unparse(T.find_func(tree, q + "__init__"))
+    if "_reserved_bytes.setdefault(node.name, 0)" not in init or "with _mutex:" not in init:
+        raise T.Untranslatable("UNTRANSLATABLE: DefaultNodeIO.__init__ no longer initialises the node's reservation with setdefault under the mutex")
     # pull_async: the release must be registered before any statement that can end the task
     asy = T.parse(core.REPO / "alpenhorn/io/_default_asyncs.py")
     body = T.strip_doc(T.find_func(asy, "pull_async").body)
@@ -142,6 +146,11 @@ class Hist:
             self.live.append((req.id, size, kind, f))
         return req.id, queued
 
+    def reinit(self):
+        """the daemon re-creates the node's I/O object (UpdateableNode.reinit after an io_config change, or the node coming back)"""
+        node = self.w.StorageNode.get(id=self.dst.id)
+        self.io = self.D.DefaultNodeIO(node, {}, self.queue)
+
     def finish_oldest(self, fault_at=None):
         """run the oldest queued pull task through the real Worker.run"""
         w = self.w
@@ -194,7 +203,15 @@ def run_history(ctx, rng, base, n_events):
     h = Hist(base, rng)
     evs, totals, log = [], [], []
     for _ in range(n_events):
-        if h.live and rng.random() < 0.45:
+        if rng.random() < 0.12:
+            before = h.reserved()
+            h.reinit()
+            evs.append("Reinit")
+            totals.append(h.reserved())
+            log.append({"reinit": True, "reserved_before": before, "reserved_after": h.reserved(), "queued_or_running": len(h.live)})
+            if h.reserved() != before:
+                ctx.fail("C14:reinit-changed-total", f"re-creating the node's I/O object changed the reserved total from {before} to {h.reserved()} with {len(h.live)} transfer(s) queued or running", {"family": "history", "log": log})
+        elif h.live and rng.random() < 0.45:
             fault = rng.choice([None, None, None, 1, 2, 3, 5, 8])
             rid, r, aborted = h.finish_oldest(fault)
             evs.append(f"(Finish {cn(rid)})")
